@@ -36,6 +36,10 @@ CHECKS.update({
  "C20": ("Coq: equivalence of borehole and system flow specifications, formula and 1/N theorems on retrieve_flow and the two BaseGHE flow lines REGENERATED from the source (and the translator's obligation that both copies of retrieve_flow are identical); correspondence on 1..400 boreholes; paired real simulations",
          "resistance and temperatures follow by congruence through external code; observed on paired simulations", "6 C20"),
 })
+CHECKS.update({
+ "C18": ("Coq: decision table of the command-line entry point (exit 0 only if outputs written / valid --validate-only / conversion done; invalid, unsupported option, missing output directory, failed design all non-zero), validation accepts iff all sections valid, upper-casing makes the verdict case-insensitive (for all strings); the real entry point is run as a subprocess on every single-field corruption x flag combination and compared with the model",
+         "jsonschema verdicts and the click framework are inputs of the model, not modelled", "6 C18"),
+})
 NA = {}
 def main():
     checks = []
